@@ -708,7 +708,8 @@ def verdict(ctx, res, kept, ekept):
     found = False
     for lab, what in WHAT.items():
         src = ekept if lab in ("v_stdout", "v_task", "v_diff", "v_diff2") else kept
-        for i in res[lab][:2]:
+        # report the smallest failing cases (selection instead of shrinking: the generator makes many small ones)
+        for i in sorted(res[lab], key=lambda i: sum(len(t["recs"]) for t in src[i]["tasks"]))[:2]:
             found = True
             ctx.violation("C08 violated: " + what, {"check": lab, "case": case_json(src[i]), "impl": src[i].get("impl")}, True)
     nm = 0
@@ -716,7 +717,7 @@ def verdict(ctx, res, kept, ekept):
         src = ekept if lab in ("m_stdout", "m_task", "m_diff2") else kept
         nm += len(res[lab])
         if res[lab] and not found:
-            i = res[lab][0]
+            i = min(res[lab], key=lambda i: sum(len(t["recs"]) for t in src[i]["tasks"]))
             ctx.violation("model and implementation disagree: %s (%d cases); the property checker accepts the "
                           "implementation's output on every explored case" % (what, len(res[lab])),
                           {"check": lab, "correspondence": "C08.Model vs utils/fstack.c, cmds/report.c, utils/report.c",
